@@ -9,7 +9,7 @@ import os
 import subprocess
 import time
 
-from .common import HARNESS, REPO, MachineryError, log
+from .common import HARNESS, REPO, HarnessCrash, MachineryError, log
 
 _GO = None
 
@@ -103,7 +103,7 @@ def run_harness(ctx, pkg, run, inputs=None, env=None, timeout=900, **kw):
     if "no tests to run" in txt:
         raise MachineryError("harness test %s not found in %s" % (run, pkg))
     if not os.path.exists(rp):
-        raise MachineryError("harness %s %s wrote no result.json (rc=%d):\n%s" % (pkg, run, rc, txt[-4000:]))
+        raise HarnessCrash("harness %s %s wrote no result.json (rc=%d):\n%s" % (pkg, run, rc, txt[-4000:]), txt)
     with open(rp) as f:
         res = json.load(f)
     res["_rc"] = rc
